@@ -70,10 +70,12 @@ def decorate(c, rng):
             for x in (v if isinstance(v, list) else [v]):
                 if hasattr(x, "params") and rng.random() < 0.4:
                     for p in rng.sample(["X-B", "ALTREP", "LANGUAGE", "X-A", "CN"], rng.randrange(1, 4)):
-                        x.params[p] = rng.choice(["1", "a b", "x,y", "http://u"])
+                        x.params[p] = rng.choice(["1", "a b", "x,y", "http://u", ["m2", "m1"], ["one"]])
 
 
-EDITS = ["pop", "popitem", "clear", "del", "setitem", "add", "setdefault", "update", "pop-missing", "del-attr"]
+EDITS = ["pop", "popitem", "clear", "del", "setitem", "add", "setdefault", "update", "pop-missing", "del-attr",
+         # the same on the parameters of a value (every way a caller can change them, with and without going through __setitem__)
+         "param-pop", "param-popitem", "param-inplace", "param-clear", "param-update", "param-move", "param-setdefault"]
 
 
 def canon_result(x):
@@ -98,6 +100,32 @@ def apply_edit(edit, comp, rstate):
     keys = list(comp.keys())
     k = r.choice(keys) if keys else "SUMMARY"
     try:
+        if edit.startswith("param-"):
+            with_params = [x for kk in keys for x in (comp[kk] if isinstance(comp[kk], list) else [comp[kk]])
+                           if len(getattr(x, "params", {})) > 0]
+            if not with_params:
+                return None
+            ps = r.choice(with_params).params
+            first = next(iter(ps))
+            if edit == "param-pop":
+                return str(ps.pop(first, None))
+            if edit == "param-popitem":
+                return str(ps.popitem())
+            if edit == "param-inplace":
+                lists = [v for v in ps.values() if isinstance(v, list)]
+                if lists:
+                    lists[0].append("zz")
+                    lists[0].reverse()
+                else:
+                    ps[first] = [str(ps[first]), "second"]
+                return None
+            if edit == "param-clear":
+                return ps.clear()
+            if edit == "param-update":
+                return ps.update({"x-u": "1", first.lower(): "changed"})
+            if edit == "param-move":
+                return ps.move_to_end(first)
+            return str(ps.setdefault("X-SD", "d"))
         if edit == "pop":
             return canon_result(comp.pop(k, None))
         if edit == "popitem":
